@@ -33,6 +33,9 @@ func TestVerifLicConc(t *testing.T) {
 	for i := 0; i < callers; i++ {
 		qs = append(qs, "Some preamble about the software license.\n"+lcRead(files[rng.Intn(len(files))])+"\ntrailing words about the terms")
 	}
+	// texts for which there is no candidate at all (far shorter than every license, out of vocabulary): the calls that
+	// return the "nothing found" result must be as independent of each other as the others
+	qs = append(qs, "license", "this software is provided under the license", "zzqx vvkq", "permission is hereby granted")
 	for i, q := range qs { // sequential reference
 		rec.mm("lic", l, al, q, true, fmt.Sprintf("mm|%d", i), fmt.Sprintf("q%d", i))
 		rec.nm("lic", l, q, "", false, fmt.Sprintf("nm|%d", i), fmt.Sprintf("q%d", i))
